@@ -1260,16 +1260,27 @@ def pair_texts(e, a, b):
 
 
 LEVEL_TEXT = ('Lean 4 theorems over a code-shaped model of insert_operator, _build_operator_table, '
-              '_generate_operator_funcs and of the parser (an operator-precedence shift/reduce machine over the '
-              'generated ply precedence tuple): for EVERY operator table and token list, a successful parse yields a '
-              'tree that satisfies the precedence predicate WF and spells exactly the token list (parse_sound), and '
-              'every WF tree is what the parser returns for its own spelling (parse_roundtrip: the dictated tree is '
-              'unique); insert_operator puts the new record where the documentation says and keeps the order of the '
-              'rest; the generated tuple orders tokens by group for every table whose groups are all populated. '
-              'Tied to the code by kernel-checked equality with the tuples/docstrings dumped from the live Parser '
-              'objects (default, legacy, with and without delegates) and by differential runs of the compiled model '
-              'against the real engine on exhaustive and random expressions over standard and custom tables.')
-LEVEL_NOTE = ("trusted: Lean kernel; ply's LALR(1) construction (the model is a precedence machine, equivalence is "
-              'differential); the real ply lexer tokenises; hand-written models Yaql/Model/OpTable.lean and Parser.lean')
-TECHNIQUE = 'Lean 4 proof (stack-machine invariants, induction over trees) + generated tables (decide) + differential parsing'
+              '_generate_operator_funcs and of the parser (an operator-precedence shift/reduce machine that applies '
+              "ply's conflict rule over the generated precedence tuple). For EVERY operator table and token list: a "
+              'successful parse yields a tree that satisfies the precedence predicate WF and spells exactly the token '
+              'list (parse_sound); for every table in which no symbol is both suffix and binary, every WF tree is what '
+              'the parser returns for its own spelling, so the dictated tree exists iff the parse succeeds and is unique '
+              '(parse_roundtrip, parse_iff, parse_unique). Table layer, all lists: insert_operator puts the record at '
+              "the end of the existing operator's group / in a new group right after it / at the front and changes "
+              'nothing else (insert_same_group, insert_new_group, insert_front); in every list reachable from the '
+              'standard ones by inserts every group number owns a key of the precedence dictionary, so the generating '
+              'loop drops no row (levels_contiguous, reachable_populated); the tuple orders names by (group, r-before-l) '
+              'and ply\'s reduce decision is a function of group and token associativity (ply_order_iso, reduce_by_group). '
+              'Parser totality (C03, parser level): outcome is a tree, Grammar none at end of input, or Grammar p with p '
+              'the position of the first token the machine cannot take. Tied to the code by kernel-checked equality with '
+              'the operator lists, tables, tuples, docstrings and alias maps dumped from the live Parser objects '
+              '(default, legacy, with/without delegates) and by differential runs of the compiled model against the '
+              'real engine (exhaustive <=3 binary x <=2 prefix operators on both standard tables in the thorough tier, '
+              'random forms, custom tables, dictated trees, token soups).')
+LEVEL_NOTE = ("trusted: Lean kernel; ply's LALR(1) construction and conflict resolution (the model is a precedence "
+              'machine, equivalence is differential); the real ply lexer tokenises in the correspondence; hand-written '
+              'models Yaql/Model/OpTable.lean and Parser.lean. ply_order_iso assumes lexeme names are distinct across '
+              'rows (kernel-checked for the live tables, not proved for the name generator in general). Known finding: '
+              'a suffix operator sharing its symbol with a binary operator binds at the binary group (suffix-binary-symbol).')
+TECHNIQUE = 'Lean 4 proof (stack-machine invariants, induction over trees and lists) + generated tables (decide +kernel) + differential parsing'
 DESIGN_REF = 'DESIGN.md section 5, C02 (and C03 parser-level totality)'
